@@ -718,7 +718,9 @@ func (r *run) evaluate() {
 	cfg := r.cfg
 	o := r.o
 	prop := propOf(r)
-	slack := max(time.Second, cfg.Flush)
+	// "within the flush timeout (plus scheduling slack)": the slack is a constant second of simulated time, it does not
+	// grow with the timeout (a batcher that needs two timeouts is late)
+	slack := time.Second
 
 	// (b) size bounds of every batch handed to the output
 	for _, oc := range r.outs {
